@@ -442,6 +442,13 @@ def run(ck):
             continue
         l, rr = a["results"]
         if l["class"] != "ok" or rr["class"] != "ok" or not l.get("equiv"):
+            if w.get("must_rewrite"):
+                # the right-hand side is what the Lean model of the rule's applier predicts
+                # (Thm/C17Proj.lean applyProjOrder_witness): the real rule must produce it
+                ck.report("rule-witness-not-rewritten:" + w["rule"], "egg, saturating with rule %s only, does not rewrite %s into %s (what the model of its applier builds), or a side does not run (equiv=%s, %s %s / %s %s)" % (
+                    w["rule"], w["lhs"], w["rhs"], l.get("equiv"), l["class"], l.get("msg", "")[:80], rr["class"], rr.get("msg", "")[:80]),
+                    replay={"rule": w["rule"], "witness": w, "lhs": l, "rhs": rr, "requests": [wreqs[[q["id"] for q in wreqs].index(wid)]]})
+                continue
             ck.notes.append("rule witness %s not applicable any more (equiv=%s, %s/%s)" % (w["rule"], l.get("equiv"), l["class"], rr["class"]))
             continue
         n_wit += 1
